@@ -108,11 +108,18 @@ def gen(tier, rng):
     NOOPS = [sess.E("15"), sess.E("45"), sess.E("LIST"), sess.E('PRINT "d"'), sess.E("70"), sess.E("CLEAR"), sess.E("GOTO 60"), sess.E("X=1"),
              # a replacement that changes nothing but the letter case inside a string or a remark is an edit like any other
              sess.E('50 PRINT "F";FNA(1);Q;A;Z(1);D'), sess.E('60 END \' Done'), sess.E('30 DATA 11,12'), sess.E('50 PRINT "f";FNA(1);Q;A;Z(1);D')]
+    # a direct line that is rejected (DATA is not allowed there) is no edit either, and leaves nothing in the program
+    NOOPS += [sess.E("DATA 99"), sess.E("IF 1 THEN DATA 7,8"), sess.E('DATA "z"')]
+    KEEP2 = KEEP[:3] + ['40 READ D,E', '45 PRINT "g";D;E:READ F:PRINT F', '50 PRINT "f";FNA(1);Q;A;Z(1);D', '60 END']
     for hi in range(40 if tier == "quick" else 1500):
-        calls = ["R100"] + [sess.E(l) for l in KEEP] + [sess.E("RUN"), "R100"]
+        calls = ["R100"] + [sess.E(l) for l in (KEEP if hi % 2 == 0 else KEEP2)] + [sess.E("RUN"), "R100"]
         for _ in range(rng.randint(0, 3)):
             calls += [rng.choice(NOOPS), "R100"]
+        if hi % 8 == 1:
+            calls += [rng.choice(NOOPS[-3:]), "R100"]       # always some histories with a rejected direct DATA line last
         fin = rng.choice(["RUN 50", "RUN 40", "RUN 20", "RUN", "RUN 60"])
+        if hi % 8 == 1:
+            fin = rng.choice(["RUN", "RUN 40"])
         calls += ["T", sess.E('PRINT "%s"' % MARK), "R100", sess.E(fin), "R100"]
         cases.append(Case(sess.session(calls), sig="no-op history %d ending in %s" % (hi, fin), tag="history", meta=("hist", 100000 + hi, fin)))
     # stale resumption after an edit
